@@ -268,6 +268,11 @@ func c10custom(rep *vh.Report, seed uint64, idx int) {
 	}
 	node := &gomavlib.Node{Endpoints: eps, Dialect: testDialect, OutVersion: gomavlib.V2, OutSystemID: 77, InKey: inKey,
 		HeartbeatPeriod: 2 * time.Millisecond, StreamRequestEnable: r.Chance(1, 2)}
+	if idx%3 == 2 {
+		// what the node itself sends is version 1 (it has no outgoing key): what it accepts is governed by InKey all the same
+		node.OutVersion = gomavlib.V1
+		rep.Count("scenarios_with_v1_out_version", 1)
+	}
 	if r.Chance(1, 3) {
 		node.HeartbeatDisable = true
 	}
